@@ -58,10 +58,7 @@ def run_units(units, repo=None, nproc=None, keep_queries=False):
             # vacuity guards
             r.vac = []
             for vn, hyps in ex.vacuity:
-                s = z3.Solver()
-                s.set("timeout", 3000)
-                s.add(*hyps)
-                r.vac.append((vn, str(s.check())))
+                r.vac.append((vn, _solve.quick_check(hyps, 3000)))
             if r.obligations == 0:
                 r.status = "error"
                 r.msg = "zero obligations generated (vacuity guard)"
